@@ -2,54 +2,71 @@
 (* M for C09: the documentation's own relations (EqDoc, CmpDoc, CmpTotalDoc) satisfy the theorems of
    Order.tla on a finite universe: the reviewed pool (GEN = 0) plus all lists of length <= 2 and
    maps of <= 2 entries of depth <= 2 over a core of critical atoms (GEN = 1).
-   One state per first index a; each invariant quantifies over all partners (pairs and triples). *)
+   The initial state computes the universe and the relation matrices ONCE (state variables: TLC's
+   caching of constant definitions is not dependable, see Values.tla); its successors are one state
+   per first index a; each invariant quantifies over all partners (pairs and triples) of a. *)
 EXTENDS Values, Order, TLC, SequencesExt
-CONSTANT GEN
-VARIABLE a
+CONSTANTS GEN,      \* 0: the pool; 1: pool + generated containers
+          NTR,      \* how many of the type rankings TRs are tried (1..3)
+          DIRECT    \* 1: also check the O(n^3) formulations of the laws of compare &total
+VARIABLES a, u, eqm, cmpm, totm, refl, rkm, lom, him
 
-nan == Num(NaNAtom)
-Core == {NA("i:0"), NA("f:0.0"), NA("f:-0.0"), nan, NA("i:1"), NA("f:1.0"), sa, Nil}
-Sub  == {List(<<>>), List(<<NA("i:0")>>), List(<<nan>>), List(<<sa>>), List(<<NA("f:-0.0")>>),
-         Map(<<>>), Map(<< <<sa, NA("f:0.0")>> >>)}
+Core == {NA("i:0"), NA("f:0.0"), NA("f:-0.0"), nanv, NA("i:1"), NA("f:1.0"), sa, Nil}
+Sub  == {l0, List(<<NA("i:0")>>), List(<<nanv>>), List(<<sa>>), lnz, m0, Map(<< <<sa, NA("f:0.0")>> >>)}
 GenSet == ListsOver(Core \cup Sub, 2)
-          \cup MapsOver({sa, NA("i:0"), NA("f:0.0"), NA("f:-0.0")},
-                        {NA("i:1"), NA("f:-0.0"), nan, List(<<NA("f:0.0")>>)}, 2)
+          \cup MapsOver({sa, NA("i:0"), NA("f:0.0"), NA("f:-0.0")}, {NA("i:1"), NA("f:-0.0"), nanv, lz}, 2)
 USet == {Pool[i] : i \in 1..Len(Pool)} \cup (IF GEN = 1 THEN GenSet ELSE {})
-U == SetToSeq(USet)
-N == Len(U)
-I == 1..N
 
-EqM  == [i \in I |-> [j \in I |-> EqDoc(U[i], U[j])]]
-CmpM == [i \in I |-> [j \in I |-> CmpDoc(U[i], U[j])]]
-TotS == [i \in I |-> [j \in I |-> CmpTotalSym(U[i], U[j])]]
-Refl == [i \in I |-> ~HasNaN(U[i])]
-Ty   == [i \in I |-> U[i].t]
-
-\* three rankings of the 8 types: the law must hold whatever the unspecified type order is
+\* three rankings of the 8 types: the laws must hold whatever the unspecified type order is
 TRs == << <<1, 2, 3, 4, 5, 6, 7, 8>>, <<8, 7, 6, 5, 4, 3, 2, 1>>, <<3, 7, 1, 5, 8, 2, 6, 4>> >>
-TotM == [r \in 1..Len(TRs) |-> [i \in I |-> [j \in I |-> Resolve(TotS[i][j], TRs[r])]]]
 
-Init == a \in I
-Next == UNCHANGED a
+I == 1..Len(u)
+TypeSet == {Types[i] : i \in 1..Len(Types)}
 
-eq(i, j)  == EqM[i][j]
-cmp(i, j) == CmpM[i][j]
+\* TLCEval forces the (otherwise lazily re-evaluated) function constructors into tables
+Mat(n, f(_, _)) == TLCEval([i \in 1..n |-> TLCEval([j \in 1..n |-> f(i, j)])])
+Init == /\ a = 0
+        /\ u = SetToSeq(USet)
+        /\ eqm  = Mat(Len(u), LAMBDA i, j : EqDoc(u[i], u[j]))
+        /\ cmpm = Mat(Len(u), LAMBDA i, j : CmpDoc(u[i], u[j]))
+        /\ totm = LET s == Mat(Len(u), LAMBDA i, j : CmpTotalSym(u[i], u[j]))
+                  IN TLCEval([r \in 1..NTR |-> Mat(Len(u), LAMBDA i, j : Resolve(s[i][j], TRs[r]))])
+        /\ refl = TLCEval([i \in 1..Len(u) |-> ~HasNaN(u[i])])
+        /\ rkm  = TLCEval([r \in 1..NTR |-> TLCEval([i \in 1..Len(u) |->
+                      Cardinality({j \in 1..Len(u) : totm[r][j][i] = -1})])])
+        /\ lom  = TLCEval([r \in 1..NTR |-> [t \in TypeSet |->
+                      LET RS == {rkm[r][i] : i \in {k \in 1..Len(u) : u[k].t = t}}
+                      IN IF RS = {} THEN 0 ELSE CHOOSE x \in RS : \A y \in RS : x <= y]])
+        /\ him  = TLCEval([r \in 1..NTR |-> [t \in TypeSet |->
+                      LET RS == {rkm[r][i] : i \in {k \in 1..Len(u) : u[k].t = t}}
+                      IN IF RS = {} THEN -1 ELSE CHOOSE x \in RS : \A y \in RS : x >= y]])
+        /\ PrintT(<<"UNIVERSE", Len(u)>>)
+Next == a = 0 /\ a' \in I /\ UNCHANGED <<u, eqm, cmpm, totm, refl, rkm, lom, him>>
+View == a
 
-WellFormed   == WF(U[a])
-LEqRefl      == EqReflexive({a}, eq, LAMBDA i : Refl[i]) /\ EqIrreflexiveAtNaN({a}, eq, LAMBDA i : Refl[i])
-LEqSym       == EqSymmetric({a}, I, eq)
-LEqTrans     == EqTransitive({a}, I, eq)
-LEqCmp0      == EqImpliesCmp0({a}, I, eq, cmp)
-LCmpAnti     == CmpAntisymmetric({a}, I, cmp)
-LCmpTrans    == CmpTransitive({a}, I, cmp)
-LTotTotal    == \A r \in 1..Len(TRs) : TotTotal({a}, I, LAMBDA i, j : TotM[r][i][j])
-LTotAnti     == \A r \in 1..Len(TRs) : CmpAntisymmetric({a}, I, LAMBDA i, j : TotM[r][i][j])
-LTotTrans    == \A r \in 1..Len(TRs) : CmpTransitive({a}, I, LAMBDA i, j : TotM[r][i][j])
-LTotAgrees   == \A r \in 1..Len(TRs) : TotAgreesWithCmp({a}, I, cmp, LAMBDA i, j : TotM[r][i][j])
-LTotGrouped  == \A r \in 1..Len(TRs) : TotGrouped({a}, I, LAMBDA i, j : TotM[r][i][j], LAMBDA i : Ty[i])
-\* within numbers the order is total and NaN is least
-LNumTotal    == \A j \in I : (Ty[a] = "num" /\ Ty[j] = "num") => cmp(a, j) # UNC
+eq(i, j)  == eqm[i][j]
+cmp(i, j) == cmpm[i][j]
+R == 1..NTR
 
-ASSUME PoolOK
-ASSUME PrintT(<<"UNIVERSE", N>>)
+WellFormed   == IF a = 0 THEN (GEN = 1 \/ Len(u) = Len(Pool))     \* pool entries pairwise distinct
+                ELSE WF(u[a])
+LEqRefl      == a = 0 \/ (EqReflexive({a}, eq, LAMBDA i : refl[i]) /\ EqIrreflexiveAtNaN({a}, eq, LAMBDA i : refl[i]))
+LEqSym       == a = 0 \/ EqSymmetric({a}, I, eq)
+LEqTrans     == a = 0 \/ EqTransitive({a}, I, eq)
+LEqCmp0      == a = 0 \/ EqImpliesCmp0({a}, I, eq, cmp)
+LCmpAnti     == a = 0 \/ CmpAntisymmetric({a}, I, cmp)
+LCmpTrans    == a = 0 \/ CmpTransitive({a}, I, cmp)
+LTotTotal    == a = 0 \/ \A r \in R : TotTotal({a}, I, LAMBDA i, j : totm[r][i][j])
+LTotAnti     == a = 0 \/ \A r \in R : CmpAntisymmetric({a}, I, LAMBDA i, j : totm[r][i][j])
+LTotTrans    == a = 0 \/ DIRECT = 0 \/ \A r \in R : CmpTransitive({a}, I, LAMBDA i, j : totm[r][i][j])
+LTotRanked   == a = 0 \/ \A r \in R : /\ RankIsCount({a}, I, LAMBDA i, j : totm[r][i][j], LAMBDA i : rkm[r][i], Cardinality)
+                                       /\ TotRanked({a}, I, LAMBDA i, j : totm[r][i][j], LAMBDA i : rkm[r][i])
+LTotGroupedR == a = 0 \/ \A r \in R : TotGroupedByRank({a}, TypeSet, LAMBDA i : rkm[r][i], LAMBDA i : u[i].t,
+                                                        LAMBDA t : lom[r][t], LAMBDA t : him[r][t])
+LTotAgrees   == a = 0 \/ \A r \in R : TotAgreesWithCmp({a}, I, cmp, LAMBDA i, j : totm[r][i][j])
+LTotGrouped  == a = 0 \/ DIRECT = 0 \/ \A r \in R : TotGrouped({a}, I, LAMBDA i, j : totm[r][i][j], LAMBDA i : u[i].t)
+\* within numbers compare is total
+LNumTotal    == a = 0 \/ \A j \in I : (u[a].t = "num" /\ u[j].t = "num") => cmp(a, j) # UNC
+
+ASSUME NumTableOK({NumPool[i] : i \in 1..Len(NumPool)})
 =============================================================================
